@@ -353,6 +353,60 @@ def line_start_rule(ctx, prog, rule):
                    how='on every path the pointer was last found not to be on a newline, or stepped over one')
 
 
+def own_occurrence_rule(ctx, prog, rule):
+    """The two searches judge one occurrence of the text per iteration.  The verdict on an occurrence must not
+    depend on what was found at earlier occurrences: a flag that is set to one constant inside the search loop,
+    never set back inside it, and read by a condition of the loop carries the verdict on one occurrence ("sits in
+    a comment") over to all later ones.  (A flag with two in-loop values is a state machine and is not judged;
+    a flag set right before leaving the loop is not in the loop.)"""
+    from engine.dataflow import contains
+    chk = ctx.chk
+    n = 0
+    for fname in (FIND_ENTRY, FIND_FOREIGN):
+        F = prog.require_func(fname)
+        for comp in C._sccs(F, C.reachable_blocks(F)):
+            if not (len(comp) > 1 or comp[0] in F.blocks[comp[0]].succs):
+                continue
+            mods = {}
+            for b in comp:
+                for e in F.blocks[b].elems:
+                    d = None
+                    if e.k == 'DeclStmt':
+                        for dd in e['decls']:
+                            mods.setdefault(dd['id'], []).append(('decl', e, dd.get('name')))
+                        continue
+                    if e.k in ('BinaryOperator', 'CompoundAssignOperator', 'UnaryOperator') and e.ch:
+                        d = decl_of(e.ch[0]) if strip(e.ch[0]).k == 'DeclRefExpr' else None
+                    if d is not None and d.get('kind') != 'parm' and common.modifies_var(e, d['id']):
+                        mods.setdefault(d['id'], []).append(('set', e, d.get('name')))
+            latches = []
+            for vid, ms in mods.items():
+                if any(k == 'decl' for k, _, _ in ms):
+                    continue            # declared inside the loop body: a new object per iteration
+                vals = set()
+                for _, e, _ in ms:
+                    v = common.const_eval(e.ch[1], {}) if (e.k == 'BinaryOperator' and e.get('op') == '=') else None
+                    vals.add(v)
+                if None in vals or len(vals) != 1:
+                    continue
+                readers = [F.blocks[b].cond for b in comp if F.blocks[b].cond is not None and contains(
+                    F.blocks[b].cond, lambda x, vid=vid: x.k == 'DeclRefExpr' and (x.get('ref') or {}).get('id') == vid)]
+                if readers:
+                    latches.append((ms[0][2], ms[0][1], readers[0]))
+            n += 1
+            head = F.blocks[min(comp)]
+            where = (latches[0][1] if latches else (head.cond if head.cond is not None else F.body)).where()
+            chk.ob(rule, 'occurrence-judged-on-its-own[%s#%d]' % (fname, n), not latches, where, F.name,
+                   '%s is set to a constant inside the search loop (%s), never set back in it, and read by the loop\'s '
+                   'condition %s: once one occurrence has set it, every later occurrence gets the same verdict - e.g. a '
+                   'comment mentioning the library makes the active entries behind it invisible to the duplicate check' % (
+                       latches[0][0] if latches else '', render(latches[0][1])[:40] if latches else '',
+                       render(latches[0][2])[:50] if latches else ''),
+                   how='no flag of the loop is set to a single constant in the loop and read by its conditions')
+    if n == 0:
+        raise AnalysisBroken('no search loop in %s / %s' % (FIND_ENTRY, FIND_FOREIGN))
+
+
 def run(ctx):
     chk = ctx.chk
     chk.rule('Q1', 'etcLdSoPreload_writeFile is the only function that opens the preload path for writing and its callers '
@@ -425,6 +479,7 @@ def run(ctx):
                'a path reaches the write without the %s test' % label)
     follower_test(ctx, prog, 'Q6')
     line_start_rule(ctx, prog, 'Q7')
+    own_occurrence_rule(ctx, prog, 'Q7')
     cli_memory_rules(ctx, prog, cg, ENABLE, 'Q8')
     whole_file_read_rule(ctx, prog, cg, 'Q1')
     # ---- Q3 ------------------------------------------------------------------------------------------
